@@ -318,8 +318,10 @@ class Engine:
                     return Poly({k_: v // pb.const_value() for k_, v in pa.t.items()})
                 c_ = pb.const_value()
                 opq = any(x.startswith('?') for x in pa.atoms() | pb.atoms())
-                if c_ is not None and c_ > 0 and not opq:
-                    q = Poly.atom(defined_atom('div', pa, pb))
+                if not opq and (c_ is None or c_ > 0):
+                    q = Poly.atom(defined_atom('div', pa, pb))      # value computed from its arguments in witness searches
+                    if c_ is None:
+                        st.add_fact(pa - q * pb)                    # q*b <= a  (b >= 1 where the division is defined)
                 else:
                     q = Poly.atom('?div(%s,%s)' % (pa, pb))
                 if c_ is not None and c_ > 0:
